@@ -24,6 +24,7 @@ class XRefNode(ConfigScalar(str)):
     @namespace('ayns')
     def on_evaluate_impl(self, path, ctx):
         chain = [NodePath.get_str_path(path)]
+        visited = [self]
         curr = self
         while isinstance(curr, XRefNode):
             try:
@@ -33,6 +34,10 @@ class XRefNode(ConfigScalar(str)):
                 raise ValueError(msg) from None
 
             chain.append(str(curr))
+            if any(ref is node for node in visited):
+                raise ValueError(f'Circular reference detected while following a chain of references: {chain}')
+
+            visited.append(ref)
             curr = ref
         assert curr is not self
         return ctx.evaluate_node(curr, prefix=chain[-1])
